@@ -111,4 +111,41 @@ REGISTRY = {
         technique='evaluated-constant table comparison + decision-table / automaton extraction by abstract interpretation',
         rule='R-CONST per table (256 entries each); R-TABLE MAPS; R-STATE per function; R-DISPATCH per (code, mode); R-TRANSLATE per (code point, active set, tables); R-FSM per care transition',
     ),
+    'C02': dict(
+        modules=['rules_c02'],
+        engine='E0+E1+E4',
+        explanation=(
+            'Chunking independence is a relation between two runs and is not decided as such. Decided is the structure that makes it true: D1 R-FOLD - '
+            'Parser::feed is exactly one loop over data.chars() with no call or state change outside the loop and a body that never looks at the chunk '
+            'again, so feed(a);feed(b) executes the same sequence of loop bodies from the same state as feed(a++b) (the recogniser position lives in the '
+            'coroutine, the fast-path flag in self; an empty chunk runs zero iterations). D2 - the 8-bit branch of ByteParser::feed is the element-wise '
+            'map `u8 as char` over the chunk and reads no carried state. D3 R-STREAM - on every UTF-8 path the chunk is handed exactly once to a streaming '
+            'encoding_rs Decoder that is a field of the ByteParser (constructed only in new / select_other_charset), with last=false, and its output is passed '
+            'to Parser::feed exactly once; no whole-buffer decode exists. With that, independence at byte offsets reduces to the decoder\'s documented '
+            'streaming contract (A-LIB). NOT decided: equality of full state snapshots over all streams x partitions as such.'),
+        level_text=('Structural proof obligations (fold shape, homomorphism, streaming-decoder typestate) whose conjunction implies chunk independence '
+                    'relative to the library contracts; decided on every path of the two feed functions rather than on sampled split points.'),
+        assumes='A-GEN, A-LIB, A-TOOL',
+        not_decided='Not decided: the two-run equality itself; encoding_rs internals.',
+        technique='CFG shape rules (fold / homomorphism) + typestate protocol rule over abstractly interpreted paths',
+        rule='R-FOLD: 5 clauses on Parser::feed; R-STREAM: protocol clauses on ByteParser (per-path aggregation)',
+    ),
+    'C11': dict(
+        modules=['rules_c02'],
+        entry='run_c11',
+        engine='E0+E1+E4+E6',
+        explanation=(
+            'The decoded characters for all byte strings are the behaviour of encoding_rs, not of memterm\'s source, and are NOT decided here. Decided is the '
+            'discipline around the library: D1 R-STREAM - the chunk goes exactly once, with last=false, to a streaming Decoder held in the ByteParser; its output '
+            'goes exactly once to the recogniser; the decoder is constructed only at construction / mode switch; no whole-buffer decode remains (so an incomplete '
+            'tail is held by the decoder and ill-formed input is replaced per the WHATWG rule the library documents). D2 - 8-bit mode maps each byte with '
+            '`u8 as char` (identity on code points by language semantics). D3 R-DISPATCH - select_other_charset: "@" switches to 8-bit and discards the carry, '
+            '"G"/"8" switch to UTF-8, every other code does nothing. D4 - the byte parser\'s panic obligations are discharged (shared with C01).'),
+        level_text=('Typestate / protocol rule for the streaming decoder, cast-only check of the 8-bit map and decision-table extraction of the mode switch; '
+                    'honest scope: decoder correctness itself is delegated to the library contract.'),
+        assumes='A-LIB, A-TOOL',
+        not_decided='Not decided: the decoded characters themselves for all byte strings (library behaviour).',
+        technique='typestate protocol rule + decision-table extraction by abstract interpretation',
+        rule='R-STREAM protocol clauses; R-DISPATCH per mode-switch code class; R-PANIC obligations of the byte parser',
+    ),
 }
